@@ -1,7 +1,7 @@
 (** C06 — page search by value never misses a page that contains the value.
     Statements only; proofs are in Search/Proofs.v. *)
 From Coq Require Import List ZArith Lia.
-From PQ Require Import Search.Model Search.Proofs.
+From PQ Require Import Search.Model Search.Proofs Stats.Multi Search.MultiFind Search.MultiFindProofs.
 Import ListNotations.
 Open Scope Z_scope.
 
@@ -40,9 +40,32 @@ Section C06.
   Theorem C06_find_in_range : forall asc idx v,
     well_formed V cmp asc idx -> (find c asc idx (Some v) <= length idx)%nat.
   Proof. exact (find_le_length V cmp cmp_opp cmp_trans c c_nonnull c_null_excl). Qed.
+
+  (** The same for the column index of a MultiRowGroup column chunk
+      (multi_row_group.go multiColumnIndex, also what a merged row group built
+      on it exposes): its pages are the pages of the chunks' indexes one chunk
+      after the other and the Ascending flag Find reads is the one isOrdered
+      computes ([multi_find] = Find on that index).  Asked of every chunk
+      ([chunk_ok]): its own index claims Ascending only when true of its
+      non-null pages and the bounds of a page are ordered (min <= max); nothing
+      is asked of how the chunks relate to one another: they may overlap, be
+      out of order, hold only null pages. *)
+  Theorem C06_multi_find_never_misses : forall (chunks : list (bool * index V)) v p,
+    Forall (chunk_ok V cmp) chunks ->
+    contains V cmp (multi_pages (map snd chunks)) p v ->
+    (multi_find cmp c chunks (Some v) <= p)%nat.
+  Proof. exact (multi_find_never_misses V cmp cmp_opp cmp_trans c c_nonnull c_null_excl). Qed.
+
+  Theorem C06_multi_find_result_contains : forall (chunks : list (bool * index V)) v,
+    Forall (chunk_ok V cmp) chunks ->
+    (multi_find cmp c chunks (Some v) < length (multi_pages (map snd chunks)))%nat ->
+    contains V cmp (multi_pages (map snd chunks)) (multi_find cmp c chunks (Some v)) v.
+  Proof. exact (multi_find_result_contains V cmp cmp_opp cmp_trans c c_nonnull c_null_excl). Qed.
 End C06.
 
 Print Assumptions C06_find_never_misses.
+Print Assumptions C06_multi_find_never_misses.
+Print Assumptions C06_multi_find_result_contains.
 Print Assumptions C06_find_result_contains.
 Print Assumptions C06_find_n_only_if_absent.
 Print Assumptions C06_find_in_range.
@@ -104,3 +127,80 @@ Proof.
   exists ex_idx, 6, 2%nat. split; [exact C06_ex_well_formed|].
   split; [exact C06_ex_contains|]. vm_compute. lia.
 Qed.
+
+(** The index of a MultiRowGroup, integer instance (what the oracle runs). *)
+Theorem C06_multi_search_Z_never_misses : forall nulls_first chunks v p,
+  Forall (chunk_ok Z cmpZ) chunks ->
+  contains Z cmpZ (multi_pages (map snd chunks)) p v ->
+  (multi_find_Z nulls_first chunks v <= p)%nat.
+Proof.
+  intros [|] chunks v p; unfold multi_find_Z.
+  - exact (multi_find_never_misses Z cmpZ cmpZ_opp cmpZ_trans _
+             (nulls_first_nonnull Z cmpZ) (nulls_first_excl Z cmpZ) chunks v p).
+  - exact (multi_find_never_misses Z cmpZ cmpZ_opp cmpZ_trans _
+             (nulls_last_nonnull Z cmpZ) (nulls_last_excl Z cmpZ) chunks v p).
+Qed.
+
+Print Assumptions C06_multi_search_Z_never_misses.
+
+(** Non-vacuity: two ascending chunks of two pages each, the second starting
+    inside the wide last page of the first (late data at the end of a row
+    group): pages [0,9] [10,100] | [20,29] [30,39].  The chunks meet
+    [chunk_ok]; isOrdered answers "not ascending" (100 > 20), Find scans and
+    finds 50 in page 1. *)
+Definition ex_chunks : list (bool * list (option (Z * Z))) :=
+  [(true, [Some (0, 9); Some (10, 100)]); (true, [Some (20, 29); Some (30, 39)])].
+
+Example C06_ex_chunks_ok : Forall (chunk_ok Z cmpZ) ex_chunks.
+Proof.
+  assert (A : forall a b d e, a <= b -> d <= e -> a <= d -> b <= e ->
+              chunk_ok Z cmpZ (true, [Some (a, b); Some (d, e)])).
+  { intros a b d e H1 H2 H3 H4. split; cbn [fst snd].
+    - intros _ i j mi xi mj xj Hij Hi Hj.
+      destruct i as [|[|i]]; destruct j as [|[|j]]; cbn in Hi, Hj;
+        try discriminate; try lia;
+        try (destruct i; discriminate); try (destruct j; discriminate).
+      inversion Hi; inversion Hj; subst. split; apply cmpZ_le; lia.
+    - apply Forall_cons; [apply cmpZ_le; lia|].
+      apply Forall_cons; [apply cmpZ_le; lia|apply Forall_nil]. }
+  apply Forall_cons; [apply A; lia|]. apply Forall_cons; [apply A; lia|apply Forall_nil].
+Qed.
+
+Example C06_ex_multi_contains : contains Z cmpZ (multi_pages (map snd ex_chunks)) 1 50.
+Proof. exists 10, 100. cbn. repeat split; lia. Qed.
+
+Example C06_ex_multi_found :
+  multi_ascending_Z ex_chunks = false /\ multi_find_Z false ex_chunks 50 = 1%nat.
+Proof. vm_compute. split; reflexivity. Qed.
+
+(** Had the index claimed Ascending there (a boundary test that looks at the
+    minima only), the binary search would answer NumPages for 50: the flag is
+    what the statement rests on. *)
+Example C06_ex_multi_wrong_flag_misses :
+  find_Z false true (multi_pages (map snd ex_chunks)) 50 = 4%nat.
+Proof. vm_compute. reflexivity. Qed.
+
+(** IsAscending of the multi index before the repair c5b5a77 compared adjacent
+    chunks only and skipped a pair when either side held only null pages; the
+    faithful model of that code refutes the statement: [10,20] | null | [0,5]
+    was claimed ascending and 15 (in page 0) was searched past. *)
+Theorem C06_pinned_multi_ascending_refuted :
+  exists chunks v p,
+    Forall (chunk_ok Z cmpZ) chunks /\ contains Z cmpZ (multi_pages (map snd chunks)) p v /\
+    ~ (multi_find_pinned cmpZ (cmp_nulls_last cmpZ) chunks (Some v) <= p)%nat.
+Proof.
+  exists [(true, [Some (10, 20)]); (true, [None]); (true, [Some (0, 5)])], 15, 0%nat.
+  assert (A : forall p : option (Z * Z), bounds_ok Z cmpZ p -> chunk_ok Z cmpZ (true, [p])).
+  { intros p Hp. split; cbn [fst snd].
+    - intros _ i j mi xi mj xj Hij Hi Hj.
+      destruct i as [|i]; destruct j as [|j]; cbn in Hi, Hj; try lia;
+        destruct j; discriminate.
+    - apply Forall_cons; [exact Hp|apply Forall_nil]. }
+  split.
+  - apply Forall_cons; [apply A; apply cmpZ_le; lia|].
+    apply Forall_cons; [apply A; exact I|].
+    apply Forall_cons; [apply A; apply cmpZ_le; lia|apply Forall_nil].
+  - split; [exists 10, 20; cbn; repeat split; lia|]. vm_compute. lia.
+Qed.
+
+Print Assumptions C06_pinned_multi_ascending_refuted.
